@@ -9,9 +9,14 @@ Spec: spec/Syntax.tla.
    the expectation the spec attaches to it: a sentence of the grammar written
    with distinct ordinary identifiers must compile, a mutant must compile or
    raise a template syntax error inside the source.
+   Profile "scope" + action Rename: single binding statements whose bodies use
+   names, with one special name (varargs, kwargs, caller, loop, self, super)
+   written at every non-empty subset of the identifier positions.
  * Mode "strings": TLC grows every string over the delimiter-fragment alphabet
    (delimiter symbols are written out per syntax configuration) and prints in
-   which configurations the string is plain data (must compile).
+   which configurations the string is plain data (must compile).  Pump
+   continues every short string with open markup by a long run of one symbol
+   (something opened and not closed for long, or never: must not hang).
  * Mode "outcomes": the distinct outcomes observed on the real engine are fed
    back and the Judge action prints Allowed(outcome) for each (the outcome
    classification of the property lives in the spec).
@@ -473,17 +478,28 @@ def _lit_work(chunk):
     import warnings
     warnings.simplefilter("ignore")
     envs = [("default", jinja2.Environment()), ("async", jinja2.Environment(enable_async=True))]
+    signal.signal(signal.SIGVTALRM, _alarm)
     out = []
+    timeouts = 0
     for s_ in chunk:
+        if timeouts >= MAX_TIMEOUTS_PER_WORKER:
+            break
         for frame in ("{{ %s }}", "{%% if x == %s %%}y{%% endif %%}", "{{ [%s, 1] }}"):
             src = frame % s_
             for ename, env in envs[: 1 if frame != "{{ %s }}" else 2]:
+                signal.setitimer(signal.ITIMER_VIRTUAL, 5.0)
                 try:
-                    env.from_string(src)
-                    ast.parse(env.compile(src, raw=True))
+                    try:
+                        env.from_string(src)
+                        ast.parse(env.compile(src, raw=True))
+                    finally:
+                        signal.setitimer(signal.ITIMER_VIRTUAL, 0)
                 except jinja2.TemplateSyntaxError as e:
                     if not (isinstance(e.lineno, int) and 1 <= e.lineno <= 1):
                         out.append((src, ename, "TemplateSyntaxError with lineno %r outside the source" % (e.lineno,)))
+                except Watchdog:
+                    timeouts += 1
+                    out.append((src, ename, "WatchdogTimeout: no result after 5 s of CPU time"))
                 except BaseException as e:  # noqa
                     out.append((src, ename, f"{type(e).__name__}: {str(e)[:80]}"))
     return out, len(chunk) * 4
